@@ -21,3 +21,7 @@ claim('C37', 'guard-dominance + typestate over clang AST/CFG; Python ast rules',
 claim('C22', 'CFG adjacency/ordering rules (nearest-call-before/after) on backend TU, wrapper TU and clang AST of generated wrappers; TLS storage attribute',
       'Decides that the saved-errno slot is thread-local storage, that every foreign call made for the user (ffi_call, global-variable fetch, every generated _cffi_f_* wrapper of the probe corpus) has restore_errno as nearest effectful call before and save_errno as nearest after inside the GIL-released region, that callback entry points save first/restore last on all paths, the getter/setter ordering, export slots 13/14, and the embedding trampoline. Thread-locality for all interleavings follows from the storage class, which no schedule sampling can establish.',
       'Assumes errno can only change through a call between two statements; generated wrappers are checked for the probe corpus (every integer/pointer/struct/void signature kind), not for every possible cdef; schedules are not explored.')
+
+claim('C02', 'sparse conditional constant propagation with a known-bits (per-bit boolean function) domain over the accessor CFGs, at every point of a guard-derived finite lattice; CFG dominance for the reject path',
+      'Decides the mask, range-constant, shift-safety and masked-merge clauses of both bit-field accessors for every (signedness, storage size, width, shift) the struct builder admits — the lattice is derived by evaluating the builder\'s own dominating guards and must equal 1..8*size — plus a store-free OverflowError reject path and the routing of shifted fields to the accessors. Exhaustive over widths (all 1..64) and, in the thorough tier, over all shifts: the full-width 64-bit defect was found this way and repaired (fix: 560e916).',
+      'Does not decide the arithmetic sign-extension identity of the signed read (outside the bit domain), agreement with compiled C accessors, or the MSVC layout branch; assumes LP64 little-endian and wrapping signed arithmetic; a full-width field delegated to the plain integer conversion relies on C03.')
